@@ -55,6 +55,13 @@ pub struct C05 {
     /// nth(skips[c % len] - 1) otherwise (what skip(), step_by() and nth() do); empty = next() only
     #[serde(default)]
     pub skips: Vec<u8>,
+    /// threads of the process's shared worker pool (only matters to code that submits jobs to it)
+    #[serde(default = "default_pool")]
+    pub pool: u8,
+}
+
+fn default_pool() -> u8 {
+    4
 }
 
 pub fn f_val(x: u64) -> u64 {
@@ -251,7 +258,7 @@ impl Scenario for C05 {
         } else {
             vec![]
         };
-        C05 { run_seed, mode: SMode::draw(&mut rng), n, w, shape, fn_delay, src_delay, stall, hinted, poll_after_end, closed_loop, skips }
+        C05 { run_seed, mode: SMode::draw(&mut rng), n, w, shape, fn_delay, src_delay, stall, hinted, poll_after_end, closed_loop, skips, pool: *rng.pick(&[1u8, 2, 2, 3, 4, 8]) }
     }
 
     fn run_seed(&self) -> u64 {
@@ -336,6 +343,7 @@ impl Scenario for C05 {
         // generous: the worst correct run observed needs about 4 000 decisions per item (priority
         // scheduling of busy-waiting workers); see the probe max_step_cap_use_permille
         spec.step_cap = 200_000 + 40_000 * self.n as u64;
+        spec.pool_size = self.pool as u32;
         if let Plan::Replay { traces, strict } = plan {
             spec = spec.replaying(traces.first().cloned().unwrap_or_default(), *strict);
         }
